@@ -219,6 +219,19 @@ def obligations(tier, seed):
                                'result in [1, n]; the outer loop terminates (decreases n/2 - t); the inner cycle search has no variant (termination of Pollard rho is not claimed); '
                                'gcd(n, d) in [1, n] is an ASSUMED callee contract; max_cycle_length doubling is not checked for wrap-around (2^64 iterations away)',
                  fns=('au::detail::find_pollard_rho_factor',)))
+    # is_perfect_square: Newton iteration from above.  Invariant: prev >= isqrt(n) (stated as (prev+1)^2 > n) and prev <= n/2 + 1, hence n / prev never divides by zero
+    # and prev + n / prev does not wrap.  curr*curr is a deliberately wrapping product in the source: not checked here (wrap=False), see DESIGN.md 10.2.
+    ips = M['is_perfect_square']
+    if tier == 'thorough': obs.append(Ob(id='C12.guarded.is_perfect_square', prop='C12', group='C12', prelude=PRE, wrappers=WRAPS, inputs=[('uint64_t', 'n')], body='''
+  _Bool r = TARGET(n);
+  CHECK(r == 0 || r == 1, "returns");
+''', kind='L', promote=False, wrap=False, budget=900,
+                  dfcc=dict(target=ips, contracts={ips: dict(requires=[], ensures=[], assigns='',
+                            loops={0: dict(invariant=['m_prev >= 1', 'm_n_addr >= 2', 'm_prev <= m_n_addr / 2 + 1',
+                                                      '((unsigned __int128)m_prev + 1) * ((unsigned __int128)m_prev + 1) > m_n_addr'],
+                                           assigns='m_prev, m_curr, m_retval')})}),
+                  contract='is_perfect_square(n): no division by zero on any path (loop invariant prev >= 1, (prev+1)^2 > n, prev <= n/2+1); no variant (termination not claimed); '
+                           'that the answer is correct stays ASSUMED', functions_under_contract=('au::detail::is_perfect_square',)))
     hD = '  struct S_struct_au__detail__LucasDParameter *d;\n  f_%s(d);'
     obs.append(D('C12.contract.as_int', 'as_int', hD % M['as_int'], wrap=False,
                  contract_text='as_int(D): requires D.mag < 2^31; ensures +/- mag; the int multiplication does not overflow'))
